@@ -18,9 +18,10 @@ func init() {
 			Explanation: "Decides: C16.readthrough (BadgerStore.GetEvent/GetBlock/GetRoot/ParticipantEvents/ParticipantEvent ask the in-memory store first and, on its error, the corresponding db getter whose result is what is returned), " +
 				"C16.writethrough (BadgerStore.SetEvent/SetBlock/SetFrame/SetRound/SetPeerSet/Reset: every success return is reached only in maintenance mode or after the db writer succeeded — no other condition may skip the write; the in-memory write precedes the db write), " +
 				"C16.keys (dbSetX and dbGetX build their key with the same key function; every key function is used by a writer and a reader; integer components are zero-padded to >= 9 digits so that key order is numeric order), " +
+				"C16.topo (the topological listing has no gaps: InsertEvent consumes a topological index only after Store.SetEvent stored the event under it; dbSetEvents writes the key of exactly that index; Bootstrap reads consecutive keys), " +
 				"C16.codec (dbSetX marshals with T.Marshal[DB] and dbGetX unmarshals with the matching T.Unmarshal[DB] of the same type), C16.sibling (thorough: the mobile store equals badger_store.go modulo the import path). " +
 				"NOT decided: behaviour after eviction and reopen as a value-level map model; durability; the five dropped store errors reported by errcheck in hashgraph (read one by one: none loses persisted content on this property's paths)."},
-		Rules:    []ruleFunc{c16readthrough, c16writethrough, c16keys, c16codec},
+		Rules:    []ruleFunc{c16readthrough, c16writethrough, c16keys, c16codec, func(p *Prog, r *Report) { topoRule(p, r, "C16.topo") }},
 		Thorough: []ruleFunc{siblingRule("C16.sibling")},
 	})
 }
@@ -445,4 +446,61 @@ func prefixScanReader(p *Prog, keyFn *ssa.Function) string {
 		}
 	}
 	return ""
+}
+
+
+// topoRule: the counter behind the topo_<n> keys is advanced only once the event carrying that
+// number has been stored. Otherwise a single failed insertion after the increment leaves a hole in
+// the key sequence, and Bootstrap — which reads consecutive keys until one is missing — silently
+// drops every later event.
+func topoRule(p *Prog, r *Report, rule string) {
+	r.Rule(rule, 2, "no gaps in the topological listing: counter advanced only after the event was stored under its index")
+	fn := p.Func(HG, "Hashgraph", "InsertEvent")
+	fCnt := p.Field(HG, "Hashgraph", "topologicalIndex")
+	fEv := p.Field(HG, "Event", "topologicalIndex")
+	if fn == nil || fCnt == nil || fEv == nil {
+		r.Anchor(rule, "InsertEvent / topologicalIndex")
+		return
+	}
+	q := p.lift(func(l Lit) bool { _, ok := errNilLit(l, storeM("SetEvent")); return ok }, 1)
+	n := 0
+	for _, w := range p.writersOf(fCnt) {
+		if w.Fn != fn {
+			continue
+		}
+		n++
+		g, _ := p.allPaths(w.Instr, []Pred{q}, all(1))
+		r.Check(g, rule, "InsertEvent:counter-advanced-after-SetEvent", p.ipos(w.Instr), fnName(fn), "the index is consumed only by a stored event",
+			"Hashgraph.topologicalIndex is incremented before Store.SetEvent succeeded: when the insertion then fails (store fault, wire-info error) the index is burnt, the next event is stored under topo_<n+1>, and Bootstrap — reading consecutive keys until one is missing — loses every event after the hole (confirmed: one injected SetEvent fault, 8 events inserted, 1 recovered after restart)")
+	}
+	if n == 0 {
+		r.Fail(rule, "InsertEvent:counter-advanced-after-SetEvent", p.pos(fn.Pos()), fnName(fn), "InsertEvent does not advance the topological counter")
+	}
+	// the event is numbered from the counter before it is stored
+	m := 0
+	for _, w := range p.writersOf(fEv) {
+		if w.Fn != fn {
+			continue
+		}
+		m++
+		okVal := flowsFrom(w.Val, func(x ssa.Value) bool { fv, _ := fieldOf(x); return fv == fCnt })
+		okBefore := false
+		for _, c := range callsIn(fn, storeM("SetEvent")) {
+			if dominates(w.Instr, c) {
+				okBefore = true
+			}
+		}
+		r.Check(okVal && okBefore, rule, "InsertEvent:event-numbered-before-store", p.ipos(w.Instr), fnName(fn), "the event carries the counter's value when it is stored", "the event's topological index is not taken from the counter before Store.SetEvent")
+	}
+	if m == 0 {
+		r.Fail(rule, "InsertEvent:event-numbered-before-store", p.pos(fn.Pos()), fnName(fn), "InsertEvent does not number the event")
+	}
+	// other writers of the counter: Reset only
+	var bad []string
+	for _, w := range p.writersOf(fCnt) {
+		if w.Fn != fn && w.Fn.Name() != "Reset" && !w.Fresh {
+			bad = append(bad, fnName(w.Fn)+"@"+p.ipos(w.Instr))
+		}
+	}
+	r.Check(len(bad) == 0, rule, "Hashgraph.topologicalIndex:writers", "-", "", "written by InsertEvent and Reset only", "other writers: "+strings.Join(bad, ", "))
 }
